@@ -127,7 +127,7 @@ JudgeSession(s) ==
       mach  == IF s.plus = 1 THEN RunAdd(OpsFrom(s.ops1, names)) ELSE Run(s.expr1, OpsFrom(s.ops1, names), s.order)
       RECURSIVE Cat(_)
       Cat(ss) == IF ss = <<>> THEN <<>> ELSE Head(ss) \o Cat(Tail(ss))
-  IN IF s.abort # 0 \/ s.collect = 0 \/ s.exc # "ok" THEN <<>>
+  IN IF s.abort # 0 \/ s.collect = 0 \/ s.exc # "ok" \/ s.plus = 2 THEN <<>>
      ELSE Cat([k \in 1..Len(s.files) |-> IF s.files[k].level > 0 THEN JudgeFile(s, s.files[k], mach) ELSE <<>>])
 Completed(s) == s.exc = "ok" /\ s.abort = 0 /\ s.collect = 1
 Judge(B) ==
